@@ -164,6 +164,7 @@ def _wait_post(c):
     D, P = cur.elems(done), cur.elems(pend)
     vt0 = vt(c.pre)
     cur.g['$last-wait-vt'] = vt(cur)
+    cur.g['$wait'] = dict(pre=c.pre, post=cur.copy(), done=done, pend=pend)
     out = [
         Not(pre.alive(done)), Not(pre.alive(pend)), cur.alive(done), cur.alive(pend), done != pend,
         isa['set'](done), isa['set'](pend), cur.f('$setrole', done) == 0, cur.f('$setrole', pend) == 0,
@@ -175,11 +176,12 @@ def _wait_post(c):
         old_sets_unchanged(pre, cur),
         allocates_only(pre, cur, 'set'),
         # FIRST_COMPLETED: an empty done set means the timeout elapsed
-        Implies(And(first, Not(Exists([x], Select(D, x)))),
+        Implies(And(first, Not(L.nonempty(D))),
                 And(tau != NONE, vt(cur) >= vt0 + L.numval(tau))),
         # ALL_COMPLETED: a non-empty pending set means the timeout elapsed
-        Implies(And(Not(first), Exists([x], Select(P, x))),
+        Implies(And(Not(first), L.nonempty(P)),
                 And(tau != NONE, vt(cur) >= vt0 + L.numval(tau))),
+        And(L.ne_facts(D) + L.ne_facts(P)),
     ]
     return And(out)
 
